@@ -63,6 +63,7 @@ pub fn run_text_full(lines: &[String], replies: &[&str], seed: u64, budget: usiz
                 ri += 1;
                 ev = s.apply(&call_provide(r));
             }
+            "idle" if ev["snap"]["bp"]["some"] == true => ev = s.apply(&call_submit("CONT")),     // a STOP is resumed with CONT
             _ => {
                 o.ok = true;
                 return o;
